@@ -49,6 +49,26 @@ def ord4_on_bodies(ctx, bodies):
         du = DefUse(body)
         renames = calls_matching(body, 'std::fs::rename')
         creates = calls_matching(body, ('std::fs::File::create', 'std::fs::File::create_new'))
+        # `OpenOptions::new()...open(tmp)` creates the staging file as well; whether it starts out
+        # empty depends on the options (clause staging-file-created-empty below)
+        opens = calls_matching(body, lambda n: n.endswith('fs::OpenOptions::open'))
+        path_arg = {}
+        empty = {}
+        for (cb_, ct_) in creates:
+            path_arg[id(ct_)] = ct_.args[0]
+            empty[id(ct_)] = True
+        for (ob, ot) in opens:
+            if len(ot.args) < 2:
+                continue
+            org = du.origins(base_local(ot.args[0]))
+            opts = {norm_callee(c.func).split('::')[-1]: c for (_b, c) in org['calls']
+                    if 'OpenOptions' in (c.func or '')}
+            if not ('create' in opts or 'create_new' in opts):
+                continue        # opens an existing file: not the creation of a staging file
+            creates.append((ob, ot))
+            path_arg[id(ot)] = ot.args[1]
+            empty[id(ot)] = any(k in opts and len(opts[k].args) >= 2 and opts[k].args[1].strip() == 'const true'
+                                for k in ('truncate', 'create_new'))
         writes = calls_matching(body, lambda n: n in ('<File as Write>::write_all',
                                                        '<File as Write>::write',
                                                        '<BufWriter as Write>::write_all'))
@@ -57,7 +77,7 @@ def ord4_on_bodies(ctx, bodies):
             # locate the chain that feeds this rename
             src_root = du.access_path(rt.args[0])[0]
             chain = []
-            cr = [c for c in creates if du.access_path(c[1].args[0])[0] == src_root]
+            cr = [c for c in creates if du.access_path(path_arg[id(c[1])])[0] == src_root]
             if not cr:
                 ctx.violation('ORD-4', '%s|create-feeds-rename' % fn,
                               'rename source is not the path given to File::create in this body',
@@ -66,6 +86,12 @@ def ord4_on_bodies(ctx, bodies):
             cb, ct = cr[0]
             ctx.ok('ORD-4', '%s|create-feeds-rename' % fn,
                    'rename source and File::create argument are the same temp path', where(rt))
+            ctx.check('ORD-4', '%s|staging-file-created-empty' % fn, empty[id(ct)],
+                      'the staging file %s' % ('starts out empty (File::create / truncate(true) / create_new(true))'
+                                               if empty[id(ct)] else
+                                               'is opened with create(true) but without truncate(true): a longer '
+                                               'staging file left by a crash keeps its tail, and the renamed blob '
+                                               'fails its length / checksum test for ever'), where(ct))
             # write_all on that file
             wr = [w for w in writes if any(c is ct for (_b, c) in du.origins(
                 base_local(w[1].args[0]))['calls'])]
